@@ -252,6 +252,45 @@ type c14Case struct {
 	V        c14Vals `json:"values"`
 	// Prev are the values returned by the same handler for the requests served before on the same instance.
 	Prev []c14Vals `json:"earlier_requests_on_the_same_instance,omitempty"`
+	// Twin: the values of the other route's handler (both handlers are closures of one function literal)
+	Twin *c14Vals `json:"values_of_the_sibling_route,omitempty"`
+}
+
+// c14Twins: two routes whose handlers are two closures of ONE function literal (a handler factory called in
+// a loop, the usual table-driven registration), each with values of its own: each route answers with its own.
+func c14Twins(shape string, va, vb c14Vals) (bad, kind string) {
+	wa := &c14World{f: flamego.NewWithLogger(io.Discard), v: va}
+	wb := &c14World{f: wa.f, v: vb}
+	next := func(c flamego.Context) { c.ResponseWriter().WriteHeader(299) }
+	for i, w := range []*c14World{wa, wb} {
+		wa.f.Get([]string{"/a", "/b"}[i], w.handler(shape), next)
+	}
+	for i, w := range []*c14World{wb, wa, wb} {
+		path := "/b"
+		if w == wa {
+			path = "/a"
+		}
+		spy := &c01Spy{hdr: http.Header{}}
+		var pan interface{}
+		func() {
+			defer func() { pan = recover() }()
+			wa.f.ServeHTTP(spy, newReq("GET", path))
+		}()
+		if pan != nil {
+			return fmt.Sprintf("ServeHTTP panicked: %v", pan), "panic"
+		}
+		want := c14Table(shape, w.v, w.err(), w.bytes())
+		if !want.Defined {
+			continue
+		}
+		if want.Wrote && (spy.code != want.Status || spy.body.String() != want.Body) {
+			return fmt.Sprintf("request %d (%s): status %d body %q, the table says status %d body %q for the values of that route's own handler", i+1, path, spy.code, trunc(spy.body.String()), want.Status, trunc(want.Body)), "wrong-response/two-closures-of-one-literal"
+		}
+		if !want.Wrote && spy.code != 299 {
+			return fmt.Sprintf("request %d (%s): status %d body %q although that route's handler returned nothing to write", i+1, path, spy.code, trunc(spy.body.String())), "empty-result-wrote/two-closures-of-one-literal"
+		}
+	}
+	return "", ""
 }
 
 // c14Reps picks one value of every outcome class of the table (wrote a body, failed, wrote nothing,
@@ -484,6 +523,25 @@ func c14Run(r *core.Run) {
 			if j.custom != "" {
 				continue
 			}
+			if j.pos == "first-of-two" {
+				reps := c14Reps(j.shape, vals, true)
+				for _, va := range reps {
+					for _, vb := range reps {
+						l.Evals++
+						l.Transitions += 3
+						l.Traces++
+						l.NonTrivial++
+						l.States++
+						if bad, kind := c14Twins(j.shape, va, vb); bad != "" {
+							l.Class("mismatch")
+							vbc := vb
+							l.Violate(kind+"/"+j.shape, bad+fmt.Sprintf(" [shape %s, values %+v and %+v]", j.shape, va, vb), c14Case{Shape: j.shape, Position: "twins", V: va, Twin: &vbc})
+						} else {
+							l.Class("two-closures-of-one-literal")
+						}
+					}
+				}
+			}
 			reps := c14Reps(j.shape, vals, r.Thorough())
 			for _, prev := range reps {
 				for _, v := range vals {
@@ -520,6 +578,10 @@ func c14Replay(raw json.RawMessage) (bool, string) {
 	var c c14Case
 	if err := json.Unmarshal(raw, &c); err != nil {
 		return false, err.Error()
+	}
+	if c.Twin != nil {
+		bad, _ := c14Twins(c.Shape, c.V, *c.Twin)
+		return bad != "", bad
 	}
 	w := c14Build(c.Shape, c.Position, c.Custom)
 	for _, p := range c.Prev {
